@@ -6,6 +6,7 @@ import (
 	"log"
 	"os"
 	"path/filepath"
+	"sort"
 	"strings"
 	"time"
 
@@ -109,12 +110,19 @@ func (b *Bundle) AddGlobalsFile(filename string) *Bundle {
 }
 
 func (b *Bundle) AddGlobalsMap(globals data.Map) *Bundle {
-	for k, v := range globals {
+	// (in sorted order: when several names are defined already, the error
+	// names the same one every time.)
+	var names = make([]string, 0, len(globals))
+	for k := range globals {
+		names = append(names, k)
+	}
+	sort.Strings(names)
+	for _, k := range names {
 		if existing, ok := b.globals[k]; ok {
 			b.err = fmt.Errorf("global %q already defined as %q", k, existing)
 			return b
 		}
-		b.globals[k] = v
+		b.globals[k] = globals[k]
 	}
 	return b
 }
